@@ -21,9 +21,10 @@
 (***************************************************************************)
 EXTENDS Naturals, Sequences, FiniteSets, SequencesExt, Functions
 
-BoolDims == {"first", "local", "icache", "testnet", "cdir", "home", "upnp", "um", "env", "arst", "uenv"}
+BoolDims == {"first", "local", "icache", "testnet", "cdir", "home", "upnp", "um", "env", "arst", "uenv", "multi", "started"}
 Dims == <<"evm", "nport", "rport", "raddr", "mport", "ip", "first", "local", "peers", "urls", "icache", "testnet", "cdir",
-          "lfmt", "ldir", "march", "mlog", "owner", "home", "upnp", "um", "env", "arst", "rew", "netid", "uenv", "second">>
+          "lfmt", "ldir", "march", "mlog", "owner", "home", "upnp", "um", "env", "arst", "rew", "netid", "uenv", "second",
+          "nat", "multi", "started">>
 Vals(d) == CASE d = "evm"   -> <<"one", "sepolia", "custom">>
              [] d = "mport" -> <<"none", "some", "auto">>
              [] d \in {"nport", "rport", "raddr", "ip", "march", "mlog", "netid"} -> <<"none", "some">>
@@ -35,11 +36,23 @@ Vals(d) == CASE d = "evm"   -> <<"one", "sepolia", "custom">>
              \* without --env / one added with another --env
              [] d = "second" -> <<"none", "noenv", "otherenv">>
              [] d = "rew"   -> <<1, 2>>
+             \* `antctl add --auto-set-nat-flags` after `antctl nat-detection` recorded this status ("off": neither)
+             [] d = "nat"   -> <<"off", "Public", "UPnP", "Private">>
+             \* multi:   `--count 2` with port ranges, the service under test is the SECOND of the batch
+             \* started: the service is started (antctl start) between its installation and its upgrade
              [] d \in BoolDims -> <<FALSE, TRUE>>
 
 \* antctl add: --peer and --network-contacts-url conflict with --first, --local with --network-contacts-url
-Installable(o) == /\ (o.first => (o.peers = 0 /\ o.urls = 0))
-                  /\ (o.local => o.urls = 0)
+\* (these the node's CLI rejects as well)
+PeersInstallable(o) == /\ (o.first => (o.peers = 0 /\ o.urls = 0))
+                       /\ (o.local => o.urls = 0)
+\* antctl add: --count conflicts with --first
+Installable(o) == PeersInstallable(o) /\ (o.first => ~o.multi)
+
+\* --auto-set-nat-flags "will override any --upnp or --home-network options" (antctl add --help): Public -> neither,
+\* UPnP -> --upnp only, Private -> --home-network only
+EffHome(o) == IF o.nat = "off" THEN o.home ELSE o.nat = "Private"
+EffUpnp(o) == IF o.nat = "off" THEN o.upnp ELSE o.nat = "UPnP"
 
 -----------------------------------------------------------------------------
 JoinC(s) == IF s = <<>> THEN "" ELSE FoldLeft(LAMBDA acc, x : acc \o "," \o x, s[1], Tail(s))
@@ -65,9 +78,9 @@ Args(o, c) ==
     \o Opt(o.icache, <<"--ignore-cache">>)
     \o Opt(o.cdir, <<"--bootstrap-cache-dir", c.cdir>>)
     \o Opt(o.netid = "some", <<"--network-id", c.netid>>)
-    \o Opt(o.home, <<"--home-network">>)
+    \o Opt(EffHome(o), <<"--home-network">>)
     \o Opt(o.lfmt # "none", <<"--log-format", o.lfmt>>)
-    \o Opt(o.upnp, <<"--upnp">>)
+    \o Opt(EffUpnp(o), <<"--upnp">>)
     \o Opt(o.ip = "some", <<"--ip", c.ip>>)
     \o Opt(o.nport = "some", <<"--port", c.nport>>)
     \o Opt(o.mport # "none", <<"--metrics-server-port", MetricsOf(o, c)>>)
@@ -128,10 +141,13 @@ NodeInterp(p) ==
      rpc |-> ValOf(p, "--rpc", ""), owner |-> ValOf(p, "--owner", ""), mport |-> ValOf(p, "--metrics-server-port", "0"),
      first |-> Has(p, "--first"), local |-> Has(p, "--local"), addrs |-> AllOf(p, "--peer"),
      urls |-> AllOf(p, "--network-contacts-url"), testnet |-> Has(p, "--testnet"), icache |-> Has(p, "--ignore-cache"),
-     cdir |-> ValOf(p, "--bootstrap-cache-dir", "")]
+     cdir |-> ValOf(p, "--bootstrap-cache-dir", ""),
+     \* past the command line: the socket the node listens on, and whether its metrics server is on
+     sock |-> ValOf(p, "--ip", "0.0.0.0") \o ":" \o ValOf(p, "--port", "0"),
+     metrics_on |-> Has(p, "--enable-metrics-server") \/ ValOf(p, "--metrics-server-port", "0") # "0"]
 
 Intended(o, c) ==
-    [home |-> o.home, upnp |-> o.upnp,
+    [home |-> EffHome(o), upnp |-> EffUpnp(o),
      log_dest |-> LogDir(o, c), log_format |-> IF o.lfmt = "none" THEN "" ELSE o.lfmt,
      max_log |-> IF o.mlog = "some" THEN c.mlog ELSE "", max_arch |-> IF o.march = "some" THEN c.march ELSE "",
      network_id |-> IF o.netid = "some" THEN c.netid ELSE "", rewards |-> c.rewards,
@@ -142,7 +158,23 @@ Intended(o, c) ==
      owner |-> IF o.owner = "none" THEN "" ELSE c.owner, mport |-> MetricsOf(o, c),
      first |-> o.first, local |-> o.local, addrs |-> JoinC(SubSeq(c.addrs, 1, o.peers)),
      urls |-> JoinC(SubSeq(c.urls, 1, o.urls)), testnet |-> o.testnet, icache |-> o.icache,
-     cdir |-> IF o.cdir THEN c.cdir ELSE ""]
+     cdir |-> IF o.cdir THEN c.cdir ELSE "",
+     \* the node listens on the requested ip / port (any / OS-chosen when not requested); its metrics server is on iff
+     \* metrics were requested (a port, or "enable" with a manager-allocated port)
+     sock |-> (IF o.ip = "some" THEN c.ip ELSE "0.0.0.0") \o ":" \o (IF o.nport = "some" THEN c.nport ELSE "0"),
+     metrics_on |-> o.mport # "none"]
+
+\* [C20-7] DECISION.  A service that has been started records the port its node listens on (NodeService::on_start:
+\* "This will cause the node to have a different port during upgrade" when it cannot); that port is recorded
+\* configuration of the service from then on, exactly like a requested --port.  So the definition regenerated by an
+\* upgrade AFTER a start launches the node with the installation's arguments plus `--port <the port it listened on>` when
+\* no port was requested at installation (with a requested port the node listened on that port and nothing differs).
+\* Both directions are judged: a lost pin and a pin to anything but the port the process listened on are violations.
+Pinned(o) == o.started /\ o.nport = "none"
+IntendedU(o, c) == IF Pinned(o)
+                   THEN [Intended(o, c) EXCEPT !.port = c.listen,
+                                               !.sock = (IF o.ip = "some" THEN c.ip ELSE "0.0.0.0") \o ":" \o c.listen]
+                   ELSE Intended(o, c)
 
 \* the interpretation dumped by the real binary (hook H7), in the shape of NodeInterp
 DumpInterp(d) ==
@@ -150,17 +182,25 @@ DumpInterp(d) ==
      max_arch |-> d.max_arch, network_id |-> d.network_id, rewards |-> d.rewards, evm_kind |-> d.evm_kind,
      evm_url |-> d.evm_url, evm_pta |-> d.evm_pta, evm_dpa |-> d.evm_dpa, root_dir |-> d.root_dir, port |-> d.port,
      ip |-> d.ip, rpc |-> d.rpc, owner |-> d.owner, mport |-> d.mport, first |-> d.first, local |-> d.local,
-     addrs |-> JoinC(d.addrs), urls |-> JoinC(d.urls), testnet |-> d.testnet, icache |-> d.icache, cdir |-> d.cdir]
+     addrs |-> JoinC(d.addrs), urls |-> JoinC(d.urls), testnet |-> d.testnet, icache |-> d.icache, cdir |-> d.cdir,
+     \* node_socket_addr as main.rs computes it; the metrics server is on iff `enable_metrics_server || port != 0`
+     \* (main.rs run_node: the derived Option is not dumped by H7, its two inputs are)
+     sock |-> d.sock, metrics_on |-> d.menable \/ d.mport # "0"]
 
 -----------------------------------------------------------------------------
 (* Clauses, on one recorded case e = [o, conc, install, upgrade, node_i, node_u, ...] *)
 
-ArgBag(ctx) == LET p == Pairs(ctx.args) IN IF p.ok THEN BagOf(p.pairs) ELSE BagOf(ctx.args)
+ArgBagA(args) == LET p == Pairs(args) IN IF p.ok THEN BagOf(p.pairs) ELSE BagOf(args)
+ArgBag(ctx) == ArgBagA(ctx.args)
+\* the arguments the upgrade must regenerate: those of the installation (+ the port pinned by a start, see Pinned)
+PinToks(e) == IF Pinned(e.o) THEN <<"--port", e.conc.listen>> ELSE <<>>
 
 \* the definition regenerated at upgrade = the definition written at installation, except what the upgrade names (--env)
 C20_UpgradeKeeps(e) ==
     /\ e.add_res = "Ok" /\ e.upg_res = "Ok" /\ e.has_install /\ e.has_upgrade
-    /\ ArgBag(e.upgrade) = ArgBag(e.install)
+    /\ (Pinned(e.o) => e.conc.listen \notin {"", "0"})
+    /\ ArgBag(e.upgrade) = ArgBagA(PinToks(e) \o e.install.args)
+    /\ e.upgrade_um = e.install_um                       \* installed for the same user / at the same level
     /\ e.upgrade.label = e.install.label
     /\ e.upgrade.program = e.install.program
     /\ e.upgrade.has_user = e.install.has_user /\ e.upgrade.username = e.install.username
@@ -183,14 +223,16 @@ C20_InstallAsAsked(e) ==
     /\ e.has_install
     /\ e.install.program = e.conc.program
     /\ e.install.autostart = e.o.arst
+    /\ e.install_um = e.o.um
     /\ (IF e.o.um THEN ~e.install.has_user ELSE e.install.has_user /\ e.install.username = e.conc.user)
     /\ (IF e.o.env THEN e.install.has_env /\ e.install.env = e.conc.env ELSE ~e.install.has_env)
 
 NodeTakes(n, e) == n.ok /\ DumpInterp(n.dump) = Intended(e.o, e.conc)
+NodeTakesU(n, e) == n.ok /\ DumpInterp(n.dump) = IntendedU(e.o, e.conc)
 \* antnode accepts each argument list and interprets it as the intended configuration
 C20_AcceptedByNode(e) ==
     e.node_checked => /\ (e.has_install => NodeTakes(e.node_i, e))
-                      /\ (e.has_upgrade => NodeTakes(e.node_u, e))
+                      /\ (e.has_upgrade => NodeTakesU(e.node_u, e))
 
 \* not part of the verdict: the real install arguments differ from the specification's Args (drift)
 SpecArgsAgree(e) == e.has_install => ArgBag(e.install) = BagOf(Pairs(Args(e.o, e.conc)).pairs)
